@@ -429,10 +429,11 @@ Proof.
     - exact Hold.
     - destruct (l_notfound ls) eqn:El; [right; apply Hnew; left; split; reflexivity|exact Hold].
     - destruct (l_ranonce ls) eqn:El; [right; apply Hnew; right; split; reflexivity|exact Hold]. }
-  case_bool_decide as Hlt.
-  - exists (length pre), raw, e, w. split; [exact Hhere|]. split; [reflexivity|].
+  destruct (decide (min' < i)) as [Hlt|Hlt];
+    [rewrite (bool_decide_eq_true_2 _ Hlt)|rewrite (bool_decide_eq_false_2 _ Hlt)].
+  - cbv beta iota zeta. exists (length pre), raw, e, w. split; [exact Hhere|]. split; [reflexivity|].
     split; [rewrite take_app; exact Hf|]. exists min'. split; [exact Hlt|exact Hmin'].
-  - destruct w; try exact I.
+  - destruct w; cbv beta iota zeta; try exact I.
     specialize (IH (pre ++ [(raw, e, Fired)])
                    (LS min' (l_notfound ls || match e with ENotFound => true | _ => false end) true)).
     rewrite <- app_assoc in IH. cbn [app] in IH. apply IH.
